@@ -89,7 +89,8 @@ def histories(sx, B):
                 sx.claim(bool(np.array_equal(p, positioned[key])), "get_point returns the last position given")
             else:
                 sx.claim(bool(np.all(np.isinf(p))), "get_point is undefined (inf) for an unpositioned residue")
-        for qi, q in enumerate(QUERY if not big else QUERY[:2]):
+        queries = list(QUERY) if not big else [QUERY[0], QUERY[1], np.array([1.3 + 0.11 * 5 + 0.03, 1.2 + 0.11 * 7, 1.1 + 0.11 * 2])]
+        for qi, q in enumerate(queries):
             for excl in ([], [1]):
                 got = eng.compute_force_point(q, 0, 0, exclude=excl)
                 want = brute_force(eng, vols, positioned, q, 0, 0, set((0, e) for e in excl), types)
